@@ -127,6 +127,7 @@ func (e *Engine) Prelude() string {
 (assert (forall ((b Bytes)) (! (and (bstr_wf (enc (cv_bstr b))) (head_minimal (enc (cv_bstr b))) (= (bstr_content (enc (cv_bstr b))) b)) :pattern ((enc (cv_bstr b))))))
 ; ---- errors ----
 (declare-fun wraps (Any) Any)
+(assert (= (wraps A_nil) A_nil))
 (declare-fun err_text (Any) Str)
 ; ---- crypto ----
 (declare-fun hash_available (Int) Bool)
